@@ -107,6 +107,10 @@ class Composition(object):
         """Enable the len() function."""
         return len(self.tracks)
 
+    def __eq__(self, other):
+        """Enable the '==' operator for Compositions."""
+        return self.tracks == other.tracks
+
     def __repr__(self):
         """Return a string representing the class."""
         result = ""
